@@ -610,7 +610,12 @@ def gen_programs(rng, wl: Workload) -> list[list]:
 
 
 def draw_policy(rng, wl: Workload, programs: list) -> tuple[dict, int]:
-    if rng.random() < 0.5:
+    r = rng.random()
+    if r < 0.2:
+        # bytecode granularity (finer than the property's source-line granularity)
+        p = rng.choice((0.002, 0.01, 0.05))
+        return {"kind": "random-opcode", "p": p, "opcodes": True}, 0
+    if r < 0.6:
         p = rng.choice((0.005, 0.02, 0.1, 0.3))
         return {"kind": "random", "p": p}, 0
     n = forkrun.run(_dryrun_child, wl.to_json(), wl.gold, programs)
@@ -697,12 +702,14 @@ def run_task(task: dict) -> dict:
             programs = gen_programs(rng, wl)
             policy, dry = draw_policy(rng, wl, programs)
             sched_seed = rng.getrandbits(48)
-            step_cap = 400_000
+            step_cap = 4_000_000 if policy.get("opcodes") else 400_000
             res = forkrun.run(_threads_child, wl.to_json(), wl.gold, programs, policy, sched_seed, None, step_cap, timeout_s=600)
             stats.inc("evaluations")
             stats.inc("thread_steps", res["steps"])
             stats.inc("thread_switches", res["switches"])
             stats.inc(f"policy_{policy['kind']}")
+            if policy.get("opcodes"):
+                stats.inc("thread_steps_opcode_granularity", res["steps"])
             for k, v in res["probes"].items():
                 stats.inc("probe_" + k, v)
             if res["switches"] > 0:
@@ -710,7 +717,8 @@ def run_task(task: dict) -> dict:
             f = res["fail"]
             if f is not None:
                 report(f["signature"].split(":harness-or-unexpected:")[0] if False else f["signature"], run_seed,
-                       {"layer": "T", "workload": wl.to_json(), "programs": programs, "schedule": res["schedule"], "step_cap": step_cap})
+                       {"layer": "T", "workload": wl.to_json(), "programs": programs, "schedule": res["schedule"], "step_cap": step_cap,
+                        "opcodes": bool(policy.get("opcodes"))})
             log.add("T", idx, len(programs), policy["kind"], res["steps"], res["switches"], res["interleaving"], f and f["signature"])
             if len(samples) < 1:
                 samples.append({"layer": "T", "pool": wl.pool, "programs": programs, "policy": policy, "steps": res["steps"],
@@ -737,7 +745,8 @@ def evaluate(scenario: dict):
                           scenario["plan_seed"], scenario["only"], timeout_s=600)
         return res["fail"]["signature"] if res["fail"] else None
     if layer == "T":
-        res = forkrun.run(_threads_child, wl.to_json(), wl.gold, scenario["programs"], {"kind": "forced", "p": 0.0}, 0,
+        res = forkrun.run(_threads_child, wl.to_json(), wl.gold, scenario["programs"],
+                          {"kind": "forced", "p": 0.0, "opcodes": bool(scenario.get("opcodes"))}, 0,
                           scenario["schedule"], scenario.get("step_cap", 400_000), timeout_s=600)
         return res["fail"]["signature"] if res["fail"] else None
     return None
